@@ -172,7 +172,8 @@ def run_impl(lines, workdir, extra_env=None):
         # a partially written last line cannot occur: answers are written and flushed whole
         result += done
         if len(done) < len(rest):
-            result.append("abort")
+            # killed by a signal (abort) or a call to process::exit(rc)
+            result.append("abort" if rc < 0 or rc > 127 else "exit:%d" % rc)
             rest = rest[len(done) + 1:]
         else:
             rest = []
